@@ -3,6 +3,7 @@ from .lib import api
 from .lib.absint import fmt_val, fmt_loc, subterms
 from .lib import lin
 from .lib.facts import AnalysisError
+from .lib.routing import outer_enters
 
 LEVEL = "other"
 EXPLANATION = (
@@ -207,7 +208,7 @@ def siblings(cx, chk, cfg, F):
         f = F.find(ADT + "::" + name)
         twin = ADT + "::" + name + "_hashed_key"
         for p in cx.paths(cfg, f["path"]):
-            ent = [e for e in p.events if e["ev"] == "enter" and e["q"] == twin and e["depth"] == 0]
+            ent = outer_enters(p, lambda e: e["q"] == twin)
             good = len(ent) == 1
             if good:
                 a = ent[0]["args"][1]
